@@ -136,9 +136,12 @@ void ezc3d::DataNS::Data::frame(const ezc3d::DataNS::Frame &frame, size_t idx)
         _frames.push_back(newFrame);
     }
     else {
+        // Copy the frame first: it may be one of the stored frames, which the resize would move
+        ezc3d::DataNS::Frame newFrame;
+        newFrame.add(frame);
         if (idx >= _frames.size())
             _frames.resize(idx+1);
-        _frames[idx].add(frame);
+        _frames[idx].add(newFrame);
     }
 }
 
